@@ -32,6 +32,9 @@ def units(tier, seed):
     else:
         out += _g.dag_units("dagI", 5, 256)
         out += [{"stage": "pdagI", "p": 5, "codes": c} for c in split_list(_g.sparse_codes(5, 4, (1, 2, 3)), 32)]
+    W = _g.WIDE_P
+    out += [{"stage": "dagI", "p": W, "codes": c} for c in split_list(_g.wide_sparse_codes("dag", 1 if tier == "quick" else 2), 16)]
+    out.append({"stage": "dagI", "p": W, "codes": [G.encode(W, ch, [0] * W) for ch in _g.wide_targeted()]})
     return out
 
 
@@ -132,9 +135,17 @@ def run_unit(unit):
             ch, und = G.decode(p, code)
             if any(und) or not G.is_acyclic(p, ch):
                 continue
-            for m in range(1 << p):
+            if p <= 5:
+                masks = range(1 << p)
+            else:       # wide graphs: no target, every single node carrying an edge, all of them, all nodes
+                active = [i for i in range(p) if G.adjacency(p, ch, und)[i]]
+                masks = sorted(set([0, (1 << p) - 1, sum(1 << i for i in active)] + [1 << i for i in active]))
+            labs_here = labs
+            if p <= 3:
+                labs_here = tuple(labs) + tuple(_g.sign_labs(p, ch))
+            for m in masks:
                 targets = G.bits(m)
-                for lab in labs:
+                for lab in labs_here:
                     fails, ncls, nicl, ncalls = check_dag_I(p, ch, lab, targets)
                     acc.states += 1
                     acc.transitions += ncalls
@@ -182,7 +193,7 @@ def replay(kind, case):
 def describe(tier, seed):
     return {
         "technique": "exhaustive enumeration of (DAG, target set) pairs on the real code vs brute-force class filtered by the targets' parent sets",
-        "rule": "imec (with/without chain shortcut) and dag_to_icpdag for every labelled DAG x every subset I: p<=4 under 3 weight labelings "
+        "rule": "imec (with/without chain shortcut) and dag_to_icpdag for every labelled DAG x every subset I: p<=4 under 3 weight labelings (+ every +-1 sign assignment at p<=3; wide 10-node graphs with <=2 edges and targeted colliders x selected I) "
                 "(+ 5-node DAGs with <=3 edges quick; all 29,281 x 32 pairs at p=5 thorough); chains to p=7 (quick) / 10 (thorough) x all I; "
                 "pdag_to_icpdag for every PDAG x I (p<=4; sparse p=5 thorough): ValueError iff a target has an undirected edge or no extension, "
                 "else the union graph of the I-class; non-trivial: class size > 1 and I a proper non-empty subset",
